@@ -187,6 +187,24 @@ void run_C10(void) {
     sample("8 threads x %" PRIu64 " kernel calls, every result congruent to the exact sum", calls / 8);
     case_end(1);
   }
+  // vectors of one power of two on both sides, short lengths: partial sums that are exactly powers of two (thresholds of "is the
+  // high part empty" shortcuts sit there); 64 x 64 exponent pairs sampled, every kernel
+  for (int k = 0; k < N_KERNELS; k++)
+    for (int avx2 = 0; avx2 <= 1; avx2++) {
+      if (!q120_kernel_has((q120_kernel_t)k, avx2)) continue;
+      for (unsigned t = 0; t < (th ? 64u : 8u); t++) {
+        char key[128];
+        snprintf(key, sizeof key, "%s_%s|short vectors of one power of two", q120_kernel_name[k], avx2 ? "avx2" : "ref");
+        if (!case_begin(key, "t=%u", t)) continue;
+        uint64_t lanes = 0;
+        static const uint64_t PE[] = {1, 2, 4, 32, 3, 64, 8, 16};
+        for (unsigned q = 0; q < 640; q++) lanes += q120_product_check((q120_kernel_t)k, avx2, PE[q % ARRAY_LEN(PE)], QF_POW2, QF_POW2, crng(), q);
+        cnt("product_lanes_checked", lanes);
+        cnt("power_of_two_products", 640);
+        sample("640 products of constant power-of-two vectors, %" PRIu64 " lanes congruent", lanes);
+        case_end(1);
+      }
+    }
   // products: every kernel, ref and avx2, ell classes x operand families
   for (int k = 0; k < N_KERNELS; k++)
     for (int avx2 = 0; avx2 <= 1; avx2++) {
@@ -275,5 +293,13 @@ void run_C10(void) {
         if (cfg == DISP_GENERIC && 1) continue;
         ops_recontent_case("C10 entry points", RNAMES, (int)ARRAY_LEN(RNAMES), RN[i], cfg, G.thorough ? 40 : 6, (unsigned)i, "same_buffers_other_data_calls");
       }
+    // and from a thread with a small stack, at the largest dimensions
+    for (int cfg = DISP_NATIVE; cfg >= DISP_GENERIC; cfg--) {
+      ops_small_stack_case("C10 entry points", RNAMES, (int)ARRAY_LEN(RNAMES), 65536, cfg, 256, G.thorough ? 4 : 1, 0, "small_stack_calls");
+      ops_small_stack_case("C10 entry points", RNAMES, (int)ARRAY_LEN(RNAMES), 16384, cfg, 256, G.thorough ? 4 : 2, 1, "small_stack_calls");
+    }
   }
+  // several threads creating, using and destroying their own modules / tables at the same time
+  for (unsigned rep = 0; rep < (G.thorough ? 60u : 8u); rep++)
+    ops_concurrent_lifecycle_case("C10 objects", LKM_BBC | LKM_BAA | LKM_BBB, (rep % 4) == 3 ? DISP_GENERIC : DISP_NATIVE, rep & 1 ? 8 : 4, 120, rep, "concurrent_lifecycle_uses");
 }
